@@ -7,7 +7,8 @@ the Lean modules and generators of every property."""
 UNITS = {
     "ct": {"driver": "C18", "harness": "ops_ct", "gens": None, "props": {"C18": ["CxVerif.Props.C18", "CxVerif.Props.C18KernelTie"]}},
     "ktie": {"driver": "KTie", "harness": "ops_ktie", "gens": "ktie", "props": {}},
-    "b32": {"driver": "B32", "harness": "ops_b32", "gens": "b32", "props": {"C17": ["CxVerif.Props.C17.B32", "CxVerif.Props.C17.Sc32", "CxVerif.Props.C17.KernelTieB32", "CxVerif.Props.C17.Group32"]}},
+    "b32": {"driver": "B32", "harness": "ops_b32", "gens": "b32", "props": {"C17": ["CxVerif.Props.C17.B32", "CxVerif.Props.C17.Sc32", "CxVerif.Props.C17.KernelTieB32", "CxVerif.Props.C17.Group32", "CxVerif.Props.C17.GlueTieCurve32"]}},
+    "b32g": {"driver": "B32Group", "harness": "ops_b32g", "gens": "b32g", "props": {}},
     "simd": {"driver": "Simd", "harness": "ops_simd", "gens": "simd",
              "props": {"C16": ["CxVerif.Props.C16.Sha256", "CxVerif.Props.C16.Blake2"]}},
     # translator tie of the hash compression cores (tools/ktx_words.py -> Extracted/Kernels*.lean, tie theorems by rfl / kernel_rfl)
